@@ -62,6 +62,7 @@ func main() {
 	if len(os.Args) > 5 {
 		start, _ = strconv.Atoi(os.Args[5])
 	}
+	verifhook.CaseCount = count
 	g := verifhook.Kinds[kind]
 	if g == nil {
 		fmt.Fprintln(os.Stderr, "unknown kind", kind)
